@@ -154,25 +154,73 @@ theorem mad_iff_exists_pair (l : List Attr) :
 
 /-! ### transformers and per-field check lists -/
 
-theorem applyTr_mem (tr : Tr) (l : List Attr) (a : Attr) (h : a ∈ applyTr tr l) :
-    a = addedAttr ∨ ∃ b ∈ l, (b.kwOnly = true → a.kwOnly = true) := by
-  cases tr <;> simp only [applyTr] at h
-  · exact Or.inr ⟨a, h, id⟩
-  · exact Or.inr ⟨a, List.mem_reverse.1 h, id⟩
-  · exact Or.inr ⟨a, List.mem_of_mem_drop h, id⟩
-  · obtain ⟨b, hb, rfl⟩ := List.mem_map.1 h
-    exact Or.inr ⟨b, hb, fun _ => rfl⟩
-  · rcases List.mem_append.1 h with h | h
-    · exact Or.inr ⟨a, h, id⟩
-    · left; simpa using h
-  · rcases List.mem_append.1 h with h | h
-    · exact Or.inr ⟨a, (List.mem_filter.1 h).1, id⟩
-    · exact Or.inr ⟨a, (List.mem_filter.1 h).1, id⟩
-  · obtain ⟨b, hb, rfl⟩ := List.mem_map.1 h
-    exact Or.inr ⟨b, hb, id⟩
-  · obtain ⟨b, hb, rfl⟩ := List.mem_map.1 h
-    exact Or.inr ⟨b, hb, id⟩
+/-- a transformer that never clears `kw_only` -/
+def Tr.keepsKwOnly (t : Tr) : Bool := t.all.kwOnly != .setF && t.first.kwOnly != .setF
 
+theorem editFirst_mem (e : AttrEdit) (n : Nat) (l : List Attr) (a : Attr) (h : a ∈ editFirst e n l) :
+    a ∈ l ∨ ∃ b ∈ l, a = e.ap b := by
+  induction l generalizing n with
+  | nil => cases n <;> simp [editFirst] at h
+  | cons x rest ih =>
+    cases n with
+    | zero => exact Or.inl (by simpa [editFirst] using h)
+    | succ n =>
+      simp only [editFirst, List.mem_cons] at h
+      rcases h with rfl | h
+      · exact Or.inr ⟨x, List.mem_cons_self, rfl⟩
+      · rcases ih n h with h | ⟨b, hb, rfl⟩
+        · exact Or.inl (List.mem_cons_of_mem _ h)
+        · exact Or.inr ⟨b, List.mem_cons_of_mem _ hb, rfl⟩
+
+theorem shape_mem (s : Shape) (l : List Attr) (a : Attr) (h : a ∈ s.ap l) : a ∈ l := by
+  cases s <;> simp only [Shape.ap] at h
+  · exact h
+  · exact List.mem_reverse.1 h
+  · exact List.mem_of_mem_drop h
+  · exact List.dropLast_subset _ h
+  · rcases List.mem_append.1 h with h | h <;> exact (List.mem_filter.1 h).1
+
+/-- every attribute a kw_only-preserving transformer returns is one it added (positional only for
+    `mandatoryLast` / `defaultedFirst`) or stems from an attribute it was given, still keyword-only if that was -/
+theorem applyTr_mem (tr : Tr) (hk : tr.keepsKwOnly = true) (l : List Attr) (a : Attr) (h : a ∈ applyTr tr l) :
+    ((tr.add = .mandatoryLast ∧ a = addedAttr) ∨ (tr.add = .defaultedFirst ∧ a = { addedAttr with dflt := true }) ∨
+        (tr.add = .kwMandatoryLast ∧ a = { addedAttr with kwOnly := true }))
+      ∨ ∃ b ∈ l, (b.kwOnly = true → a.kwOnly = true) := by
+  unfold applyTr at h
+  simp only [Tr.keepsKwOnly, Bool.and_eq_true, bne_iff_ne, ne_eq] at hk
+  have core : ∀ x ∈ tr.shape.ap (editFirst tr.first tr.nFirst (l.map tr.all.ap)),
+      ∃ b ∈ l, (b.kwOnly = true → x.kwOnly = true) := by
+    intro x hx
+    have hx := shape_mem _ _ _ hx
+    have hall : ∀ y ∈ l.map tr.all.ap, ∃ b ∈ l, (b.kwOnly = true → y.kwOnly = true) := by
+      intro y hy
+      obtain ⟨b, hb, rfl⟩ := List.mem_map.1 hy
+      refine ⟨b, hb, fun hbk => ?_⟩
+      simp only [AttrEdit.ap]
+      cases hak : tr.all.kwOnly <;> simp_all [BEdit.ap]
+    rcases editFirst_mem _ _ _ _ hx with hx | ⟨y, hy, rfl⟩
+    · exact hall x hx
+    · obtain ⟨b, hb, hbk⟩ := hall y hy
+      refine ⟨b, hb, fun h => ?_⟩
+      have := hbk h
+      simp only [AttrEdit.ap]
+      cases hfk : tr.first.kwOnly <;> simp_all [BEdit.ap]
+  cases hadd : tr.add <;> simp only [hadd, Add.ap, List.mem_append, List.mem_cons, List.mem_nil_iff, or_false] at h
+  · exact Or.inr (core a h)
+  · rcases h with h | rfl
+    · exact Or.inr (core a h)
+    · exact Or.inl (Or.inl ⟨rfl, rfl⟩)
+  · rcases h with rfl | h
+    · exact Or.inl (Or.inr (Or.inl ⟨rfl, rfl⟩))
+    · exact Or.inr (core a h)
+  · rcases h with h | rfl
+    · exact Or.inr (core a h)
+    · exact Or.inl (Or.inr (Or.inr ⟨rfl, rfl⟩))
+
+theorem mad_exists_two {l : List Attr} (h : mandatoryAfterDefault l = true) :
+    ∃ a ∈ l, ∃ b ∈ l, a.positional = true ∧ a.dflt = true ∧ b.positional = true ∧ b.dflt = false := by
+  obtain ⟨i, j, a, b, _, hi, hj, h1, h2, h3, h4⟩ := (mad_iff_exists_pair l).1 h
+  exact ⟨a, List.mem_of_getElem? hi, b, List.mem_of_getElem? hj, h1, h2, h3, h4⟩
 
 theorem firstFail_flatMap_iff {α : Type} (g : α → List (Bool × Exc)) (l : List α) (e : Exc) :
     firstFail (l.flatMap g) = some e ↔
